@@ -275,7 +275,7 @@ def coq_case(recs, v):
     return "(%d, %s, %s)" % (ORIGIN, coq_records(recs), coq_view(v))
 
 
-def evaluate(prop, verdict_fn, cases, stats, extra_args_of=lambda c: ()):
+def evaluate(prop, verdict_fn, cases, stats, extra_args_of=lambda c: (), wrap=None, case_type="(N * list record * list oentry)"):
     ok, log, samply = K.cargo_build_samply()
     if not ok:
         raise K.TieBroken("samply does not build:\n" + log[-1500:])
@@ -313,9 +313,10 @@ def evaluate(prop, verdict_fn, cases, stats, extra_args_of=lambda c: ()):
             stats.setdefault("kinds", {})
             kk = rec[0] + ("-exec" if rec[0] == "comm" and rec[4] else "")
             stats["kinds"][kk] = stats["kinds"].get(kk, 0) + 1
-        terms.append(coq_case(c["items"], r["view"]))
+        t = coq_case(c["items"], r["view"])
+        terms.append(wrap(c, t) if wrap else t)
         idx.append(i)
-    shards = [K.case_defs("(N * list record * list oentry)", ch, fn=verdict_fn) for ch in K.chunked(terms, K.NCPU)]
+    shards = [K.case_defs(case_type, ch, fn=verdict_fn) for ch in K.chunked(terms, K.NCPU)]
     try:
         res = K.coq_eval(prop, "From SV Require Import Model.Converter Tie.C01.\nOpen Scope N_scope.", shards)
     except RuntimeError as ex:
